@@ -264,6 +264,12 @@ func (r *relay) processFrame(f http2.Frame) error {
 		} else {
 			var settings []http2.Setting
 			if err = f.ForeachSetting(func(s http2.Setting) error {
+				// A value outside the range the setting allows is a connection error. It
+				// must neither be acted upon (frames cannot be cut to a maximum size below
+				// the size of their own fixed fields) nor be passed on.
+				if err := s.Valid(); err != nil {
+					return fmt.Errorf("invalid setting %v: %w", s, err)
+				}
 				switch s.ID {
 				case http2.SettingHeaderTableSize:
 					r.peer.updateTableSize(s.Val)
